@@ -4,6 +4,14 @@ and record in its meta.json which checks/rules detect it; also fills `needs_to_m
 import json, os, re, subprocess, sys
 VERIF = os.path.dirname(os.path.dirname(os.path.abspath(__file__)))
 NEEDS = {
+ 'seed-C02-5': 'a scoring matrix whose wildcard (N) column is finite and above the row minimum (background with unknown = true, or ScoringMatrix::new with N = 0.0) and a qualifying window that contains N: to_discrete fills only the K - 1 known columns, the N cell stays 0 and the 8-bit score under-estimates',
+ 'seed-C03-5': 'same change as seed-C02-5, reached through Scanner::max: the best window contains N under a finite N column',
+ 'seed-C04-5': 'count_symbol (singular) on a StripedSequence after configure / configure_wrap(m >= 1): the loop walks the look-ahead rows too, whose cells map back to indices < len, so symbols of the first m rows are counted twice',
+ 'seed-C07-5': 'SSE2 argmax on a matrix wider than 16 columns (32-column scores on the SSE2 arm) whose maximum lies in columns 16..31: the final scalar selection runs over 0..16',
+ 'seed-C08-5': 'AVX2 max_u8 seeded from row 0 with a 1..rows loop that loads before advancing (fourth independent appearance of seed C02-3): the last row of a block is never read, a block whose only hit is on its last row is skipped',
+ 'seed-C10-5': 'a CountMatrix of width exactly 1 with count[A] != count[T] or count[C] != count[G]: reverse_complement returns self.clone() when rows < 2',
+ 'seed-C16-5': 'the same striped sequences configured twice with a growing motif width (sampling widths 5, 9, 14 on one data set): configure_wrap resizes to rows + m instead of rows + m - wrap, so data.rows() - wrap over-counts the sequence rows',
+ 'seed-C17-5': 'lightmotif.load(fileobj) on a Python file object with >= 8192 unread bytes: PyFileRead::read treats a read that fills the buffer exactly as "more bytes than requested" and raises OSError (or, for exactly 8192 bytes, yields no motif)',
  'seed-C01-5': 'protein alphabet (K = 21: row stride 24 floats, 21 columns) on the AVX2 gather kernel / dispatcher with a motif of width >= 2: the table pointer advances by columns() instead of stride()',
  'seed-C05-5': 'the generic encoder (also the scalar tail of the SIMD encoders and every input shorter than one block) with at least two different invalid bytes handled by the scalar loop: it keeps going and reports the last one',
  'seed-C06-5': 'AVX2 f32 permute kernel prefetches the next sequence row one iteration ahead: an aligned 32-byte load of row i + M (one past the last row) when there is no spare capacity after the wrap rows (cloned sequence, motif of exactly 33 positions); scores are unchanged',
